@@ -3,10 +3,12 @@ CONSTANTS
   MaxGroups = 0
   MaxObjects = 1
   MaxData = 1
+  MaxDrill = 0
   MaxPGs = 1
   ObjClasses = {"Surface", "Grid2D"}
   Prims = {"int"}
   ShareTypes = FALSE
+  UnnamedPGs = FALSE
   Deviations = {}
 INVARIANT TypeOK
 INVARIANT EveryItemClassified
